@@ -3,6 +3,7 @@ From Coq Require Import List Bool NArith.
 Import ListNotations.
 From JS Require Import Model.Base Model.Shape Model.Sem Model.Merger Model.Infer Model.Api
   Proofs.MergerAlgebra.
+From JS Require Import Model.Lexer Model.Walk Model.TextApi Model.JsonRef Proofs.TextComplete Proofs.TextLift.
 
 Theorem C08_idempotent : forall s, wf s = true -> merger s s = s.
 Proof. exact merge_idem. Qed.
@@ -59,6 +60,12 @@ Theorem C08_sources_order : forall d e s s', from_sources_tree [d; e] = Ok s -> 
   forall x, mem x s = mem x s'.
 Proof. exact sources_comm. Qed.
 Print Assumptions C08_sources_order.
+
+(* on TEXTS: from_sources([d, d]) == from_str(d) *)
+Theorem C08_text_idempotent : forall s d sh, text_of s d -> from_str_m cfg_now s = Ok sh ->
+  from_sources_m cfg_now [s; s] = Ok sh.
+Proof. exact text_sources_idem. Qed.
+Print Assumptions C08_text_idempotent.
 
 Example C08_nonvacuous :
   let a := STuple [SNumber false; SString true] false in
